@@ -25,7 +25,7 @@ def _shard(name, shard, nshards, tier, seed):
     from pytenet import operation as opn
     c = Corr(name)
     rng = np.random.default_rng([seed, shard, 4, sum(map(ord, name))])
-    n = (300 if tier == 'quick' else 3000) // nshards + 1
+    n = (300 if tier == 'quick' else 15000) // nshards + 1
     ops, impls, sigs = [], [], []
 
     def push(op, f, sig):
